@@ -108,3 +108,6 @@ func SpecTrieWord(t *Trie, w string) bool   { panic("abstract spec function") }
 //@   loop 1:
 //@     invariant idx: 0 - 1 <= rangeindex && rangeindex < len(f.dbBlackList)
 //@     invariant none_before: forall j int :: 0 <= j && j <= rangeindex ==> f.dbBlackList[j] != db
+
+//@ func RedisKeyFilter.FilterCmdKey
+//@   trusted frame only (projection not yet under contract): builds new argument slices, modifies nothing that existed before
